@@ -582,12 +582,25 @@ pub fn c12_decoder_case(kind: usize, n: usize, k: usize) -> Option<Violation> {
             (s.len(), s.len() == n + 3 * k)
         }
     };
-    let (req, viol, live) = shadow::with(|h| {
-        let r = (h.requests_total, h.violations.len(), h.live.len());
+    let (req, viol, live, sizes) = shadow::with(|h| {
+        let sizes: Vec<usize> = h.events.iter().filter(|e| matches!(e.kind, shadow::EvKind::Alloc | shadow::EvKind::Realloc)).map(|e| e.size).collect();
+        let r = (h.requests_total, h.violations.len(), h.live.len(), sizes);
         h.end_case();
         r
     });
     let case = serde_json::json!({"kind": "decoder_growth", "decoder": kind, "n": n, "k": k});
+    // each buffer the decoder moves to is needed because the previous one (of s bytes, header included) was full to
+    // within 3 bytes: "at least the old length plus half of it" implies more than 1.5 x (s - 32) for the next one
+    for w in sizes.windows(2) {
+        if w[1] > w[0] && 2 * w[1] < 3 * w[0].saturating_sub(32) {
+            return Some(Violation {
+                case,
+                clause: "C12.lower".into(),
+                step: 0,
+                detail: format!("decoder {kind} ({n} + {k} units): a full buffer of {} bytes was replaced by one of {} bytes, less than 1.5x (all buffer sizes: {sizes:?})", w[0], w[1]),
+            });
+        }
+    }
     if !ok || viol != 0 || live != 0 {
         return Some(Violation { case, clause: "C16.decode".into(), step: 0, detail: format!("decoder {kind}: wrong length, heap violation or leak ({viol}, {live})") });
     }
